@@ -830,7 +830,20 @@ func c09Set(c *core.Ctx, idx int, watcher bool) {
 		f := genCronFile(r, i)
 		files = append(files, f)
 		h.files[f.Name] = f
-		_ = os.WriteFile(filepath.Join(dir, f.Name), []byte(f.Text), 0644)
+		if !watcher && r.Intn(6) == 0 {
+			// a DAG file that is a symbolic link to a file kept elsewhere,
+			// present when the daemon starts
+			tdir := filepath.Join(root, "targets")
+			_ = os.MkdirAll(tdir, 0755)
+			_ = os.WriteFile(filepath.Join(tdir, f.Name), []byte(f.Text), 0644)
+			if err := os.Symlink(filepath.Join(tdir, f.Name), filepath.Join(dir, f.Name)); err != nil {
+				c.Inconclusive("symlink: " + err.Error())
+				return
+			}
+			c.Count("symlinked_dag_files", 1)
+		} else {
+			_ = os.WriteFile(filepath.Join(dir, f.Name), []byte(f.Text), 0644)
+		}
 		if f.Suspended {
 			h.fake.suspended[strings.TrimSuffix(f.Name, filepath.Ext(f.Name))] = true
 		}
@@ -1132,6 +1145,6 @@ func init() {
 				{Name: "loop", Mode: "loop", Shards: 8, Timeout: 40 * time.Minute},
 			}
 		},
-		Rule:        "Real scheduler.New(cfg, logger, fake) over a generated DAGs directory (3-10 files; 128 (960) sets: single / list / overlapping list / start-stop-restart map schedules, suspended, no schedule, invalid YAML, invalid cron, loader-hostile documents, non-DAG extensions; expressions from the 5-field grammar: lists, ranges, steps, a/n, month and weekday names, day-of-month OR day-of-week, never-coming dates, leap day, month and year ends). Each set is ticked minute by minute (VerifTick) through windows: a long run of consecutive minutes, windows aimed at a match of every sparse expression of the set, calendar corners (31 Dec, 28/29 Feb of leap and non-leap years, 30/31 of a month), random minutes 2026-2036; every window is a new daemon (restart), some restart inside the previous daemon's last minute; stalls make ticks late and bunched (the fake's wall clock runs ahead of the tick minute). A recording fake of client.Client is the ground truth for running / last start (Start becomes visible only when the tick is otherwise quiescent, like a process spawn) and emulates runs of 0-30 ticks, stops and restarts; prior histories at daemon start: none / older / still running / started in the first tick's minute. A tick is complete when every goroutine created by the scheduler package for it is gone or parked in the fake's Start (goroutine dump, no sleeps). Oracle per (file, tick minute m), with an independent cron evaluator (own parser, direct calendar evaluation, no next-time search): exactly one Start iff some start expression matches m and the DAG is not suspended, not running, and its latest run did not start in or after m; otherwise none; Stop iff a stop expression matches and the DAG runs; Restart iff a restart expression matches (stop/restart of suspended DAGs not judged); no call ever for unloadable / non-DAG files. Watcher pass: files are added, edited (every minute <-> never), removed, broken while the directory watcher runs; until 10 s after a change either content is accepted, afterwards only the new one. Real-client pass: the daemon with the real client, jsondb (latestStatusToday on) and status socket; run states made by the real blackdagger binary (never run, running, running since yesterday = its history file back-dated, finished in this minute, killed) x with/without a stop schedule; recorder executable: no start while running, stop delivered to the running run, no second start in the minute of the latest start, one start at the next minute. Loop pass: 48 (600) windows of 5-12 minutes through the daemon's own timer loop (Scheduler.Start) on the fixed-time clock, which a recording client moves forward from inside each tick so that the tick ends 0 s - 200 s after the next minute boundary (always on time / one slow tick / random); one DAG per minute of the window makes each Start name the minute ticked: every minute is ticked exactly once, late ticks are made up for. Non-trivial = each window of each set (signature set,window,start); evaluations = ticks.",
+		Rule:        "Real scheduler.New(cfg, logger, fake) over a generated DAGs directory (3-10 files; 128 (960) sets: single / list / overlapping list / start-stop-restart map schedules, suspended, no schedule, invalid YAML, invalid cron, loader-hostile documents, non-DAG extensions, one file in six a symbolic link to a file outside the directory; expressions from the 5-field grammar: lists, ranges, steps, a/n, month and weekday names, day-of-month OR day-of-week, never-coming dates, leap day, month and year ends). Each set is ticked minute by minute (VerifTick) through windows: a long run of consecutive minutes, windows aimed at a match of every sparse expression of the set, calendar corners (31 Dec, 28/29 Feb of leap and non-leap years, 30/31 of a month), random minutes 2026-2036; every window is a new daemon (restart), some restart inside the previous daemon's last minute; stalls make ticks late and bunched (the fake's wall clock runs ahead of the tick minute). A recording fake of client.Client is the ground truth for running / last start (Start becomes visible only when the tick is otherwise quiescent, like a process spawn) and emulates runs of 0-30 ticks, stops and restarts; prior histories at daemon start: none / older / still running / started in the first tick's minute. A tick is complete when every goroutine created by the scheduler package for it is gone or parked in the fake's Start (goroutine dump, no sleeps). Oracle per (file, tick minute m), with an independent cron evaluator (own parser, direct calendar evaluation, no next-time search): exactly one Start iff some start expression matches m and the DAG is not suspended, not running, and its latest run did not start in or after m; otherwise none; Stop iff a stop expression matches and the DAG runs; Restart iff a restart expression matches (stop/restart of suspended DAGs not judged); no call ever for unloadable / non-DAG files. Watcher pass: files are added, edited (every minute <-> never), removed, broken while the directory watcher runs; until 10 s after a change either content is accepted, afterwards only the new one. Real-client pass: the daemon with the real client, jsondb (latestStatusToday on) and status socket; run states made by the real blackdagger binary (never run, running, running since yesterday = its history file back-dated, finished in this minute, killed) x with/without a stop schedule; recorder executable: no start while running, stop delivered to the running run, no second start in the minute of the latest start, one start at the next minute. Loop pass: 48 (600) windows of 5-12 minutes through the daemon's own timer loop (Scheduler.Start) on the fixed-time clock, which a recording client moves forward from inside each tick so that the tick ends 0 s - 200 s after the next minute boundary (always on time / one slow tick / random); one DAG per minute of the window makes each Start name the minute ticked: every minute is ticked exactly once, late ticks are made up for. Non-trivial = each window of each set (signature set,window,start); evaluations = ticks.",
 		Assumptions: []string{"the fake client is the world: a Start/Stop/Restart takes effect when the tick has otherwise settled", "time zone UTC; CRON_TZ= prefixes, descriptors and day-of-week 7 are not generated", "*/n in a day field is only generated when the other day field is *, where all cron dialects agree"}})
 }
